@@ -65,7 +65,7 @@ Qed.
 
 Lemma ch_sort_atomic s o k r : snd (ch_sort s o k r) <> OK -> fst (ch_sort s o k r) = s.
 Proof.
-  unfold ch_sort.
+  unfold ch_sort. destruct (none_clash s o k); [reflexivity|].
   destruct k; try reflexivity;
     (destruct (keys_of _ (hp s) (kids (get (hp s) o))); simpl; [congruence | reflexivity | reflexivity]).
 Qed.
